@@ -130,12 +130,25 @@ class SkipAheadIntersector(Intersector):
         if point0 is None or point1 is None:
             return
 
-        assert point0 is not None and point1 is not None and point0[:-1] == point1[:-1]
-
         fiber = point0[:-1]
         curr = None
 
         while point0 and point1:
+            # A finger that is still in an earlier fiber points at the
+            # trailing access of that fiber (the other operand was exhausted
+            # first or was empty): there is nothing to compare it with
+            if point0[:-1] < point1[:-1]:
+                point0, i0 = get_next(trace0, i0)
+                curr = None
+                continue
+
+            if point1[:-1] < point0[:-1]:
+                point1, i1 = get_next(trace1, i1)
+                curr = None
+                continue
+
+            fiber = point0[:-1]
+
             if point0 == point1:
                 self.num_intersects += 1
                 curr = None
@@ -226,11 +239,22 @@ class TwoFingerIntersector(Intersector):
         if point0 is None or point1 is None:
             return
 
-        assert point0 is not None and point1 is not None and point0[:-1] == point1[:-1]
-
         fiber = point0[:-1]
 
         while point0 and point1:
+            # A finger that is still in an earlier fiber points at the
+            # trailing access of that fiber (the other operand was exhausted
+            # first or was empty): there is nothing to compare it with
+            if point0[:-1] < point1[:-1]:
+                point0, i0 = get_next(trace0, i0)
+                continue
+
+            if point1[:-1] < point0[:-1]:
+                point1, i1 = get_next(trace1, i1)
+                continue
+
+            fiber = point0[:-1]
+
             self.num_intersects += 1
 
             if point0 == point1:
